@@ -106,4 +106,19 @@ CHECKS = {
               'every enquire_link_interval is C16 (session model).'),
         note=COMMON_NOTE + 'time.monotonic replaced by a virtual clock in quanta of 1/1024 s (floats exact). Operations are atomic here; a hook that suspends inside _remove_expired is a session-level interleaving.',
         technique='Lean 4 theorems (induction over the key snapshot of the sweep, frame lemmas); differential correspondence on a virtual clock'),
+    'C01': dict(
+        text=('Proof, PARTIAL (tier 2, atomic handlers), with two known findings. Props/C01.lean over the model of '
+              'SimpleCorrelator + the correlation part of ESME._handle_response after repairs f3792e2, 4216ec2, 30f1721, '
+              'dec7b5c, c8ff67e: an unsegmented submit that is answered by submit_sm_resp/generic_nack is handed over exactly '
+              'then with its log_id/extra_data and is consumed; unanswered, it is reported by the first sweep after expiry; '
+              'for segmented messages the aggregation law (still sending iff some segment is; failure dominates; expiry ranks '
+              'above success) and the pre-registration of all segments are proved; the full statement is FALSE of the code on '
+              'two history classes, each with a kernel-checked counter-example and a witness replayed on the real code every '
+              'run: segment-reference-reuse (8-bit reference wraps while the earlier message is still in the status store: '
+              'outcome attributed to the other log_id) and wrong-type-response-consumes-request. NOT yet a theorem: the '
+              'history-level exactly-once ledger over arbitrary interleavings of segmented messages (covered by the '
+              'correspondence + ledger predicate on generated histories only) and the session-level interleavings '
+              '(hooks suspending inside put, connection loss mid-send).'),
+        note=COMMON_NOTE + 'Each correlator operation and each _handle_response run is atomic at this tier. log_id values are assumed distinct per message when judging attribution.',
+        technique='Lean 4 theorems (single-step refinement lemmas, max-aggregation law, kernel-checked counter-examples for the excluded classes); differential correspondence through the real handler with a ledger predicate'),
 }
